@@ -7,5 +7,5 @@ INVARIANT Inv_Bounds
 INVARIANT Inv_Swap
 CONSTANT MaxLen = 3
 CONSTANT Gen = FALSE
-CONSTANT KindSet = {1, 2, 3, 4, 5, 6, 7, 8, 9, 10, 11, 12, 13, 14, 15, 16}
+CONSTANT KindSet = {1, 2, 3, 4, 5, 6, 7, 8, 9, 10, 11, 12, 13, 14, 15, 16, 17, 18}
 CHECK_DEADLOCK FALSE
